@@ -556,6 +556,7 @@ OVERRIDE_HINTS = {
     'int|str': Union[int, str], 'Tuple[int,...]': Tuple[int, ...], 'Lit1': Literal[1], 'float|int': Union[float, int],
     'Set[str]': Set[str], 'UA|None': Optional[uc.UA], 'str|float': Union[str, float],
     'int|str|bytes': Union[int, str, bytes], 'UA|int|str|None': Union[uc.UA, int, str, None],
+    'complex': complex, 'complex|float|int': Union[complex, float, int],
 }
 
 
